@@ -29,10 +29,27 @@ func isBoundaryFunc(fn *ssa.Function) bool {
 						for _, fb := range fn.Blocks {
 							for _, fi := range fb.Instrs {
 								if d, ok := fi.(*ssa.Defer); ok && closureOf(&d.Call) == an {
-									return len(fn.Params) >= 1 && isFuncType(fn.Params[len(fn.Params)-1].Type())
+									return len(fn.Params) >= 1 && isFuncType(fn.Params[len(fn.Params)-1].Type()) && handlerAbsorbs(an)
 								}
 							}
 						}
+					}
+				}
+			}
+		}
+	}
+	return false
+}
+
+// handlerAbsorbs: for some type the recover handler asserts, its control flow ends in a normal return
+// (it turns that payload into a result); a handler that re-panics everything is no boundary.
+func handlerAbsorbs(h *ssa.Function) bool {
+	for _, b := range h.Blocks {
+		for _, ins := range b.Instrs {
+			if ta, ok := ins.(*ssa.TypeAssert); ok && fromRecover(ta.X) {
+				for _, e := range simulateHandler(h, ta.AssertedType) {
+					if e.kind == "return" {
+						return true
 					}
 				}
 			}
